@@ -510,7 +510,9 @@ ADDED7 = {
     "C20": "Round 5: the machine-variable store is no longer only assumed to behave as a map: MachineVariables."
            "set_machine_var / get_machine_var / configure_machine_var (mpf/core/machine_vars.py, C15's contracts: the "
            "value is stored, get returns it or None, persist flag / expiry kept) are re-checked in this run as set C20m; "
-           "the model of the store used by the credits contracts is the client view of exactly those clauses.",
+           "the model of the store used by the credits contracts is the client view of exactly those clauses. "
+           "DataManager.save_all / _writing_thread (earnings hand-over) re-checked in the same set. Seed C20-12 (get "
+           "returns None after the expiry time) is refuted by it with the counter-model replayed natively.",
 }
 
 
